@@ -419,3 +419,50 @@ Definition from_xir (x : xprog) : res prog :=
   end.
 
 Definition xir_roundtrip (p : prog) : res prog := from_xir (to_xir p).
+
+(* ---------------------------------------------------------------- to_xir(add_decl=True)
+   Declarations are added to the XIR program next to the statements; the statement list is the one of to_xir.
+   A gate class is declared once, at its first application, with one formal parameter per element of that
+   command's parameter list and wires 0 .. (number of modes - 1); every measurement class gets an output declaration. *)
+
+Definition mkind_eqb (a b : mkind) : bool :=
+  match a, b with MFock, MFock | MHom, MHom | MHet, MHet | MThr, MThr => true | _, _ => false end.
+
+Definition opclass_eqb (a b : opclass) : bool :=
+  match a, b with
+  | OGate i, OGate j => Nat.eqb i j
+  | OFourier, OFourier => true
+  | OMeas k, OMeas l => mkind_eqb k l
+  | OMeta i, OMeta j => Nat.eqb i j
+  | _, _ => false
+  end.
+
+Record gdecl := mkGdecl { gname : opclass; gparams : nat; gwires : nat }.
+
+Fixpoint gate_decls (seen : list opclass) (cs : list cmd) : list gdecl :=
+  match cs with
+  | [] => []
+  | c :: cs' =>
+      if is_meas (cls c) then gate_decls seen cs'
+      else if existsb (opclass_eqb (cls c)) seen then gate_decls seen cs'
+      else mkGdecl (cls c) (length (params c)) (length (modes c)) :: gate_decls (cls c :: seen) cs'
+  end.
+
+Fixpoint out_decl_names (seen : list opclass) (cs : list cmd) : list opclass :=
+  match cs with
+  | [] => []
+  | c :: cs' =>
+      if is_meas (cls c) then
+        if existsb (opclass_eqb (cls c)) seen then out_decl_names seen cs'
+        else cls c :: out_decl_names (cls c :: seen) cs'
+      else out_decl_names seen cs'
+  end.
+
+Record xfile := mkXfile { xprog_of : xprog; xgate_decls : list gdecl; xout_decls : list opclass }.
+
+Definition to_xir_opt (add_decl : bool) (p : prog) : xfile :=
+  if add_decl then mkXfile (to_xir p) (gate_decls [] (pcirc p)) (out_decl_names [] (pcirc p))
+  else mkXfile (to_xir p) [] [].
+
+(* the readers never look at declarations *)
+Definition xir_roundtrip_opt (add_decl : bool) (p : prog) : res prog := from_xir (xprog_of (to_xir_opt add_decl p)).
